@@ -118,6 +118,11 @@ def strLt : List Rune → List Rune → Bool
 
 def zeroTimeSec : Int := -62135596800
 
+/-- `time.Unix(sec, 0)`: Go stores `sec + 62135596800` in an int64 (seconds since year 1), which wraps for
+the last 62135596800 values below 2^63; the model keeps the mathematical value "stored seconds minus the
+offset", so ordering and `Unix()` (which wraps back) are exact. -/
+def unixSec (i : Int64) : Int := (Int64.ofInt (i.toInt + 62135596800)).toInt - 62135596800
+
 def clampI64 (i : Int) : Int64 :=
   if i > 9223372036854775807 then Int64.maxValue
   else if i < -9223372036854775808 then Int64.minValue else Int64.ofInt i
@@ -175,13 +180,13 @@ def convertUnsafe (v : V) (t : VT) : R :=
     | .int i, .long => .ok (.long i)
     | .int i, .float => .ok (.float (i64ToF32 i))
     | .int i, .double => .ok (.double (i64ToF64 i))
-    | .int i, .dateTime => .ok (.dateTime i.toInt 0)
+    | .int i, .dateTime => .ok (.dateTime (unixSec i) 0)
     | .int i, .timeSpan => .ok (.timeSpan (i * 1000000))
     | .int i, .boolean => .ok (.bool (i != 0))
     | .long i, .integer => .ok (.int i)
     | .long i, .float => .ok (.float (i64ToF32 i))
     | .long i, .double => .ok (.double (i64ToF64 i))
-    | .long i, .dateTime => .ok (.dateTime i.toInt 0)
+    | .long i, .dateTime => .ok (.dateTime (unixSec i) 0)
     | .long i, .timeSpan => .ok (.timeSpan (i * 1000000))
     | .long i, .boolean => .ok (.bool (i != 0))
     | .float f, .integer => .ok (.int (f64ToI64 f.toFloat))
